@@ -113,9 +113,6 @@ class TcpConnection():
             self.tracking_events_count += TRACKING_SOCKET_EVENTS_TIMEOUT
 
             for key, mask in self.events:
-                if key.data is not None:
-                    self.data_stream += key.data
-
                 if mask & selectors.EVENT_WRITE:
                     tcp_connection.debug(f"Selector notified EVENT_WRITE")
                     self.write()
@@ -127,7 +124,12 @@ class TcpConnection():
 
     def _set_selector_events_mask(self, mode: Literal["r", "w", "rw"], msg: Any = None) -> None:
         self.lock.acquire()
-        if mode == "r":
+        if mode == "r" and (self.data_stream or self._send_buffer):
+            #: There are still bytes waiting to be written: stay in write 
+            #: mode until the transport thread has flushed them.
+            pass
+
+        elif mode == "r":
             tcp_connection.debug(f"[Socket-{self.sock_id}] Updating "\
                                  f"selector events mask [READ]")
 
@@ -150,8 +152,14 @@ class TcpConnection():
             tcp_connection.debug(f"[Socket-{self.sock_id}] Updating "\
                                  f"selector events mask [READ/WRITE]")
 
+            #: The stream is appended to the outgoing buffer under the lock 
+            #: (any number of streams may be handed over before the transport
+            #: thread runs); the selector only carries the events mask.
+            if msg:
+                self.data_stream += msg
+
             self.events_mask = selectors.EVENT_READ | selectors.EVENT_WRITE
-            self.selector.modify(self.sock, self.events_mask, data=msg)
+            self.selector.modify(self.sock, self.events_mask)
             self.write_mode_on.set()
             self.read_mode_on.set()
 
@@ -182,13 +190,15 @@ class TcpConnection():
 
 
     def write(self) -> None:
-        if not self.send_data_stream_queued and self.data_stream:
+        self.lock.acquire()
+        if self.data_stream:
             self._send_buffer += self.data_stream
             self.data_stream = b""
             self.send_data_stream_queued = True
             tcp_connection.debug(f"[Socket-{self.sock_id}] Stream data has "\
                                  f"been queued into _send_buffer: "\
                                  f"{self._send_buffer.hex()}")
+        self.lock.release()
 
         self._write()
 
